@@ -94,11 +94,20 @@ Proof.
            ++ cbn [t_rh set_chunked set_rh]. apply noconn_app; auto. constructor; [|constructor].
               cbn [fst f_chunked]. exact Hcap_te.
         -- rewrite C. cbn [negb]. rewrite scof_noconn by auto. cbn. repeat split; auto.
-  - destruct (beqb conn (lit "keep-alive") && negb fc) eqn:Ek; cbn [andb].
+  - rewrite C. cbn [negb]. rewrite andb_true_r.
+    destruct (beqb conn (lit "keep-alive") && negb fc) eqn:Ek; cbn [andb].
     + destruct (truthy clh); cbn [negb].
       * cbn. repeat split; auto.
       * rewrite scof_noconn by auto. cbn. repeat split; auto.
     + rewrite scof_noconn by auto. cbn. repeat split; auto.
+Qed.
+
+(* a task that has already decided to close (ErrorTask; too few bytes found before
+   the head is built) does not announce Keep-Alive on HTTP/1.0 (commit 766d449) *)
+Lemma bh_conn_closed_10 conn fc clh t : t_v11 t = false -> t_cof t = true ->
+  bh_conn cap lower conn fc clh t = set_close_on_finish cap lower t.
+Proof.
+  intros V C. unfold bh_conn. rewrite V, C. cbn [negb]. rewrite andb_false_r. reflexivity.
 Qed.
 
 (* what the table says about announcing *)
@@ -138,7 +147,7 @@ Proof.
   intro H.
   assert (Hho : match ho with Some (_, Ok _, true) => False | _ => True end).
   { subst ho. destruct (a_kind a); auto. destruct s as [t ch].
-    destruct (_ =? 0)%Z; auto.
+    destruct (_ =? 0)%Z; auto. destruct (t_wrote_header t); auto.
     match goal with |- context [task_write cap lower c r disc ?s0 ?d] =>
       destruct (task_write cap lower c r disc s0 d) as [[t1 ch1] [u|e]] end; auto.
     destruct (write_soon disc ch1 _) as [ch2 [u2|e2]]; auto. }
@@ -168,7 +177,7 @@ Proof.
     destruct (encode_latin1 _); [|cbn; auto].
     destruct (write_soon disc ch _) as [ch1 [u|e]]; cbn; auto. }
   destruct r1 as [[t ch] [u|e]]; cbn [fst snd] in F.
-  - destruct (t_chunked t); [destruct (write_soon disc ch _)|]; intro H; inversion H; subst; exact F.
+  - destruct (t_chunked t && negb (r_head r)); [destruct (write_soon disc ch _)|]; intro H; inversion H; subst; exact F.
   - intro H; inversion H; subst; exact F.
 Qed.
 
